@@ -116,6 +116,7 @@ class Recorder(object):
         self.keep_obs = False
         self.kinds = {}
         self.listeners = []       # monitors: fn(recorder, event, stepped nid)
+        self.submit_cids = set()
 
     def _order(self, n):
         o = self.sim.nodes[n]
@@ -152,6 +153,7 @@ class Recorder(object):
             obj = sim.nodes[n]
             pad = b'x' * size
             command = regular_command(obj, cid, pad, raises)
+            self.submit_cids.add(cid)
             sim.apply(ev)
             mev = ('submit', n, (0, cid, 1 if raises else 0, len(command), cpk_of(command)), cb)
         elif k == 'admin':
@@ -322,8 +324,9 @@ class Scheduler(object):
             if len(dead) < 2:
                 return self.kill(self.rng.choice(live))
         if r < 0.12 and opts.get('setver'):
+            cbid = self.next_cid
             self.next_cid += 1
-            return self.rec.do(('setver', self.rng.choice(live), self.rng.choice([0, 0, 1]), self.next_cid if self.rng.random() < 0.7 else 0))
+            return self.rec.do(('setver', self.rng.choice(live), self.rng.choice([0, 0, 1]), cbid if self.rng.random() < 0.7 else 0))
         if r < 0.15 and opts.get('admin') and self.rec.cfg.get('dyn'):
             return self.admin_step()
         if r < 0.45:
@@ -383,8 +386,8 @@ def _admin_step(self):
     # operator: add a fresh node or remove one; the request can be issued on any node
     live = sorted(self.alive)
     n = self.rng.choice(live)
-    self.next_cid += 1
     cbid = self.next_cid if self.rng.random() < 0.8 else 0
+    self.next_cid += 1
     pool = [x for x in self.pool if x not in self.members]
     if pool and (len(self.members) <= 2 or self.rng.random() < 0.5) and len(self.members) < 5:
         x = self.rng.choice(pool)
